@@ -14,6 +14,11 @@ func (e *FilterExec) Explain() string {
 }
 
 func (e *FilterExec) Filter(kvp KVPair, ctx *ExecuteCtx) (bool, error) {
+	// The per-row field cache is keyed by alias name only: values cached while
+	// filtering the previous (rejected) row must not be seen for this row.
+	if ctx != nil {
+		ctx.Clear()
+	}
 	ret, err := e.filterBatch([]KVPair{kvp}, ctx)
 	if err != nil {
 		return false, err
